@@ -137,6 +137,24 @@ pub fn scenarios(tier: Tier, which: &str) -> Vec<LineScn> {
 				});
 			}
 		}
+		// forward claim while the downstream peer has an HTLC of its own in flight towards the forwarder,
+		// forwarder's monitor writes asynchronous: every completion order and two reorderings
+		v.push(LineScn {
+			name: format!("{}-abc-claim-cross-async-b", n),
+			ct,
+			nodes: 3,
+			ops: vec![
+				fwd_send(50_000_000, ClaimPolicy::Claim),
+				Op::Send { from: 2, hops: vec![(1, 1)], amount_msat: 20_000_000, policy: ClaimPolicy::Claim },
+			],
+			ops_first: false,
+			dev: Deviations { complete_reorder: Some(1), reorder: Some(1), early_op: Some(1), ..Deviations::default() },
+			k: if th { 3 } else { 2 },
+			crash_nodes: vec![],
+			async_from_start: vec![1],
+			max_disconnects: 0,
+			on_chain: false,
+		});
 		// two forwards sharing both channels, one claimed one failed
 		v.push(LineScn {
 			name: format!("{}-abc-two-forwards", n),
